@@ -105,13 +105,24 @@ def _cli(args):
 
 
 # ------------------------------------------------------------------ 3. histories (E4)
+_MINMAX = "{ q(P,V) } :- dq(P,V).\nr(P,X) :- grp(P), X = #max { V : q(P,V) }.\n#minimize { X@1,P : r(P,X) }."
+_ANON = "{ q(X,Y) } :- dq(X,Y).\nr(X) :- q(X,Y), s(X).\nt(X,Y) :- q(X,Y), not s(Y).\n#show r/1. #show t/2."
+NO_UNUSED = [t for t in TRAITS if t != "unused"]
+
+# (name, program, traits): histories mix programs AND trait selections; several entries share textually equal rules
+# at different source lines or under different traits (state keyed by rule text, source line or trait would leak here)
 HIST_ALPHABET = [
-    ("minmax", "{ q(P,V) } :- dq(P,V). r(P,X) :- grp(P), X = #max { V : q(P,V) }. #minimize { X@1,P : r(P,X) }."),
-    ("sumchain", "{ sh(D,L) : ps(D,L) } 1 :- day(D). a(X) :- X = #sum { L,D : sh(D,L) }."),
-    ("symmetry", "{ p(X,Y) } :- dp(X,Y). :- p(G,A), p(G,B), A != B."),
-    ("math", "{ s(Z) : ds(Z) }. a(X) :- p(X), N = #sum { Z : s(Z) }, M = #count { Z : s(Z) }, N + M = X."),
-    ("dupl", "h1(X) :- p(X,Y), q(Y), e(X). h2(X) :- p(X,Y), q(Y), not e(X). m(X,Y) :- p(Y,X). c(X) :- m(X,_)."),
-    ("minmax2", "{ q(P,V) } :- dq(P,V). t(P,X) :- grp(P), X = #min { V : q(P,V) }. u(S) :- S = #sum { X,P : t(P,X) }."),
+    ("minmax", _MINMAX.replace("\n", " "), TRAITS),
+    ("sumchain", "{ sh(D,L) : ps(D,L) } 1 :- day(D). a(X) :- X = #sum { L,D : sh(D,L) }.", TRAITS),
+    ("symmetry", "{ p(X,Y) } :- dp(X,Y). :- p(G,A), p(G,B), A != B.", TRAITS),
+    ("math", "{ s(Z) : ds(Z) }. a(X) :- p(X), N = #sum { Z : s(Z) }, M = #count { Z : s(Z) }, N + M = X.", TRAITS),
+    ("dupl", "h1(X) :- p(X,Y), q(Y), e(X). h2(X) :- p(X,Y), q(Y), not e(X). m(X,Y) :- p(Y,X). c(X) :- m(X,_).", TRAITS),
+    ("minmax2", "{ q(P,V) } :- dq(P,V). t(P,X) :- grp(P), X = #min { V : q(P,V) }. u(S) :- S = #sum { X,P : t(P,X) }.",
+     TRAITS),
+    ("minmax_lines", "aa(1).\n\n" + _MINMAX, TRAITS),
+    ("minmax_lines_default", _MINMAX, DEFAULT),
+    ("anon", _ANON, TRAITS),
+    ("anon_no_unused", _ANON, NO_UNUSED),
 ]
 
 
@@ -122,28 +133,28 @@ def _history(args):
 
     import ngo
 
-    def opt(text, prg=None):
+    def opt(text, prg=None, traits=TRAITS):
         if prg is None:
             prg = []
             parse_string(text, prg.append, logger=lambda c, m: None)
-        return prg, ngo.optimize(prg, ngo.auto_detect_input(prg), ngo.auto_detect_output(prg), **flags(TRAITS))
+        return prg, ngo.optimize(prg, ngo.auto_detect_input(prg), ngo.auto_detect_output(prg), **flags(traits))
 
     last = None
     for i in hist:
         try:
-            last = opt(HIST_ALPHABET[i][1])
+            last = opt(HIST_ALPHABET[i][1], None, HIST_ALPHABET[i][2])
         except BaseException:  # pylint: disable=broad-except
             pass
     try:
         if mode == "same_list_twice":
-            prg, _ = opt(HIST_ALPHABET[probe][1])
-            _, res = opt(None, prg)
+            prg, _ = opt(HIST_ALPHABET[probe][1], None, HIST_ALPHABET[probe][2])
+            _, res = opt(None, prg, HIST_ALPHABET[probe][2])
         elif mode == "on_result":
-            _, first = opt(HIST_ALPHABET[probe][1])
-            _, res = opt(None, list(first))
+            _, first = opt(HIST_ALPHABET[probe][1], None, HIST_ALPHABET[probe][2])
+            _, res = opt(None, list(first), HIST_ALPHABET[probe][2])
             return hist, probe, mode, "\n".join(str(s) for s in res)
         else:
-            _, res = opt(HIST_ALPHABET[probe][1])
+            _, res = opt(HIST_ALPHABET[probe][1], None, HIST_ALPHABET[probe][2])
         return hist, probe, mode, "\n".join(str(s) for s in res)
     except BaseException as exc:  # pylint: disable=broad-except
         return hist, probe, mode, f"EXCEPTION {type(exc).__name__}: {exc}"
@@ -277,14 +288,14 @@ def main(tier: str, seed: int) -> int:
     from vt.checks.C01 import slice_keep  # pylint: disable=import-outside-toplevel
 
     def mk(j, c0):
-        fam = j["family"].split("/")[0]
+        fam = j["family"].split("/")[0].split("~")[0]
         return [config(compose.OWNER[fam], c0["inp"], [], NOORC), config(DEFAULT, c0["inp"], [], NOORC)]
 
     keep = slice_keep(tier)
     imm_fams = ["C12", "C13", "C15"] if quick else ["C08", "C09", "C10", "C11", "C12", "C13", "C14", "C15", "C16"]
     imm_jobs += list(compose.remap(compose.family_jobs(imm_fams, tier),
                                    "C17", mk, checks=("immut",),
-                                   keep=lambda j: keep(j) or j["family"].split("/")[0] in ("C12", "C13")))
+                                   keep=lambda j: keep(j) or j["family"].split("/")[0].split("~")[0] in ("C12", "C13")))
     driver.run_pool(imm_jobs, seed, agg.add)
     for jb, cres, v in agg.violations:
         if v.get("kind") == "mutated_argument":
@@ -317,7 +328,7 @@ def main(tier: str, seed: int) -> int:
                                f"order and every assignment of {{reversed, rotated, swap2}} to <= {bound} of the set-iteration "
                                "sites actually reached (import-hook rewritten package, conformance with the plain package "
                                f"checked); (2) python -m ngo under {nseeds} PYTHONHASHSEED values; (3) every history of <= "
-                               f"{depth} optimize calls over a 6-program alphabet followed by each probe, each in a process "
+                               f"{depth} optimize calls over an alphabet of 10 (program, trait selection) pairs that share rules at different source lines and under different traits followed by each probe, each in a process "
                                "forked before any optimize call, compared with the fresh run; optimize on the same list "
                                "twice; (4) argument statements/identity before vs after for the corpus under the trait "
                                "subsets. non-trivial = distinct active sites + histories",
